@@ -201,7 +201,7 @@ func (c *Check) Run() {
 			var err interface{}
 			func() {
 				defer func() { err = recover() }()
-				b.body = sc.Render(theoryAxioms)
+				b.body = sc.Render(allAxioms)
 			}()
 			if err != nil || len(b.body) > 24<<20 {
 				for _, i := range b.idx {
@@ -281,7 +281,7 @@ func (c *Check) Run() {
 		var body string
 		func() {
 			defer func() { recover() }()
-			body = sc.Render(theoryAxioms)
+			body = sc.Render(allAxioms)
 		}()
 		if body != "" {
 			jobs = append(jobs, wjob{r, body, "(get-value (" + strings.Join(wn, " ") + "))\n"})
